@@ -316,6 +316,7 @@ fn analyze_receiver(sc: &Scenario, r: &SimResult) -> (Vec<Finding>, Facts) {
     let mut final_acked_at: Option<usize> = None;
     let mut error_at: Option<usize> = None;
     let mut failed_in_window: u64 = 0;
+    let mut last_acked_abs: u64 = 0;
     let mut once = std::collections::HashSet::new();
     let mut shape: u64 = 0xcbf29ce484222325;
     let mut prev_tx: Option<Vec<u8>> = None;
@@ -370,10 +371,14 @@ fn analyze_receiver(sc: &Scenario, r: &SimResult) -> (Vec<Finding>, Facts) {
                 if acked_abs == acc_blocks {
                     since_ack = 0;
                     must_ack = None;
-                    if failed_in_window > fa.max_failed_per_window {
-                        fa.max_failed_per_window = failed_in_window;
+                    if acked_abs > last_acked_abs || i == 0 {
+                        // progress: a new window starts (a repeated ACK does not reset the count)
+                        if failed_in_window > fa.max_failed_per_window {
+                            fa.max_failed_per_window = failed_in_window;
+                        }
+                        failed_in_window = 0;
+                        last_acked_abs = acked_abs;
                     }
-                    failed_in_window = 0;
                     if final_seen && final_acked_at.is_none() {
                         final_acked_at = Some(i);
                     }
